@@ -255,9 +255,60 @@ var (
 
 func c18Mode() string { return os.Getenv("IKESIM_C18_MODE") }
 
+// prepareShared (re)builds the read-only inputs shared by several tasks: plain
+// datagrams (decode_shared) and protected ones, possibly forged, placed in a
+// buffer with spare capacity (unprotect_shared). Rebuilt before every run so that
+// a decoder that writes into its input cannot leak from one run into the next.
+func prepareShared(tasks []Task) {
+	sharedInputs = nil
+	put := func(ref int, b []byte) {
+		for len(sharedInputs) <= ref {
+			sharedInputs = append(sharedInputs, nil)
+		}
+		sharedInputs[ref] = b
+	}
+	for _, t := range tasks {
+		for i := range t.Steps {
+			st := &t.Steps[i]
+			if st.Msg == nil || st.Ref < 0 || (st.Ref < len(sharedInputs) && sharedInputs[st.Ref] != nil) {
+				continue
+			}
+			switch st.Op {
+			case "decode_shared":
+				r := &callResult{}
+				guard(r, func() {
+					if m, err := st.Msg.build(); err == nil {
+						if b, err := m.Encode(); err == nil {
+							put(st.Ref, b[:len(b):len(b)])
+						}
+					}
+				})
+			case "unprotect_shared":
+				if st.Suite == nil || st.Keys == nil {
+					continue
+				}
+				key, err := newKeyObj(*st.Suite, st.Keys)
+				m, err2 := st.Msg.build()
+				if err != nil || err2 != nil {
+					continue
+				}
+				out, res := protect(m, key, "I", &RandScript{Seed: st.SpiI})
+				if res.class() != "ok" {
+					continue
+				}
+				if st.Fault != nil && st.Fault.Kind == "bitflip" && st.Fault.Byte < len(out) {
+					out[st.Fault.Byte] ^= 1 << uint(st.Fault.Bit&7)
+				}
+				put(st.Ref, rxBuffer(out, 64)) // spare capacity behind the datagram, as in a receive buffer
+			}
+		}
+	}
+}
+
 func soloTraces(tasks []Task) [][]string {
 	var out [][]string
 	for i := range tasks {
+		prepareShared(tasks)
 		tr, _, _, _ := runSerialized([]Task{tasks[i]}, nil)
 		out = append(out, tr[0])
 	}
@@ -269,28 +320,9 @@ func opC18(w *World, s *Step) (string, string) {
 		return "notasks", "notasks"
 	}
 	parallel := len(s.Rounds) > 0 || s.Procs > 0
-	// shared read-only inputs, built once before any task starts
-	sharedInputs = nil
-	for _, t := range s.Tasks {
-		for _, st := range t.Steps {
-			if st.Op == "decode_shared" && st.Msg != nil {
-				for len(sharedInputs) <= st.Ref {
-					sharedInputs = append(sharedInputs, nil)
-				}
-				if sharedInputs[st.Ref] == nil {
-					r := &callResult{}
-					guard(r, func() {
-						if m, err := st.Msg.build(); err == nil {
-							if b, err := m.Encode(); err == nil {
-								sharedInputs[st.Ref] = b[:len(b):len(b)]
-							}
-						}
-					})
-				}
-			}
-		}
-	}
+	prepareShared(s.Tasks)
 	solo := soloTraces(s.Tasks)
+	prepareShared(s.Tasks)
 	var inter [][]string
 	mode := "serialized"
 	if parallel {
@@ -367,7 +399,7 @@ func opC18(w *World, s *Step) (string, string) {
 // task generation
 // ---------------------------------------------------------------------------
 
-func genTaskSteps(r *Rng, nops int, sharedMsg *MsgSpec, allowSlow bool) []Step {
+func genTaskSteps(r *Rng, nops int, sharedMsg *MsgSpec, sharedProt *Step, allowSlow bool) []Step {
 	var steps []Step
 	su := suiteByIndex(r.Intn(54))
 	su.DH = 2
@@ -421,8 +453,12 @@ func genTaskSteps(r *Rng, nops int, sharedMsg *MsgSpec, allowSlow bool) []Step {
 			steps = append(steps, Step{Op: "dec", Cipher: 0, Src: "own", N: 0, Ref: nct})
 			nct++
 		case 18:
-			if sharedMsg != nil {
+			if sharedMsg != nil && r.Bool() {
 				steps = append(steps, Step{Op: "decode_shared", Ref: 0, Msg: sharedMsg})
+			} else if sharedProt != nil {
+				st := *sharedProt
+				st.Rx = &RxOpts{PreHdr: r.Bool()}
+				steps = append(steps, st)
 			}
 		case 19:
 			if allowSlow && r.Chance(1, 4) {
@@ -455,8 +491,18 @@ func genC18(r *Rng, idx int, tier string) *Scenario {
 	if r.Chance(2, 3) {
 		shared = genMsg(r, &cfg)
 	}
+	var sharedProt *Step
+	if r.Chance(2, 3) {
+		su := suiteByIndex(r.Intn(9))
+		su.Prf, su.DH = "sha1", 2
+		sp := &Step{Op: "unprotect_shared", Ref: 1, Suite: &su, Keys: genRawKeys(r, su), Msg: genSimpleMsg(r, 3), SpiI: r.U64()}
+		if r.Chance(2, 3) { // a forged copy: every decoder must refuse it, first or last
+			sp.Fault = &Fault{Kind: "bitflip", Byte: 28 + r.Intn(40), Bit: r.Intn(8)}
+		}
+		sharedProt = sp
+	}
 	for i := 0; i < ntasks; i++ {
-		st.Tasks = append(st.Tasks, Task{Steps: genTaskSteps(r, nops, shared, !parallel)})
+		st.Tasks = append(st.Tasks, Task{Steps: genTaskSteps(r, nops, shared, sharedProt, !parallel)})
 	}
 	if parallel {
 		st.Procs = []int{2, 4, 8, 16}[idx%4]
